@@ -17,6 +17,10 @@ def run(tier):
         sb = list(dict.fromkeys(sim.behaviours))
         if len(sb) < 50: raise tlc.SetupError("the trench simulation emitted too few polylines")
         beh += sb
+    from lib import gen
+    gb = gen.behaviours(c, tier, "motion")          # documents of the world-file grammar, written against a second frame
+    beh += gb
+    c.coverage["grammar_documents"] = len(gb)
     res = replay.replay(exe, beh, shards=16, timeout_s=120)
     c.add_replay(res, "base world at p vs moved world at g.p")
     c.sample(beh[0][:2500] + "...")
@@ -33,7 +37,8 @@ def run(tier):
                           "polyline of 3 (thorough: up to 4) points of a 3x3 (4x4) lattice without exactly collinear triples -- sharp turns, "
                           "axis-parallel parts, V and S shapes -- with a temperature linear in the distance from the plane, under three rotations / "
                           "translations, compared on a dense lattice of points at two depths (an eleventh of the worlds per quick run, half of them per thorough run, plus simulated trenches of up to 6 points on the 4x4 lattice); a "
-                          "disagreement is dropped (and counted) only if the base world's own answer is unstable under a 1e-7 jitter. non-trivial: all")
+                          "Plus simulated documents of the world-file grammar Gen.tla, each written against a second frame (three rotations / translations, "
+                          "longitude offsets 100, 172, -184) and compared on a grid of 143 positions x 7 depths; a disagreement is dropped (and counted) only if the base world's own answer is unstable under a 1e-7 jitter. non-trivial: all")
     c.assumptions += ["probes are at least 10 km from every feature boundary, so membership cannot flip by rounding; the statement's 'up to rounding' is taken as 1e-6 relative",
                       "velocities and grain orientations are not compared (the statement lists temperature, composition, tag and grains; no grains models here)"]
     return c.finish()
